@@ -1,5 +1,11 @@
 package rsync
 
+import (
+	"errors"
+	"sync"
+	"time"
+)
+
 // C34: the check-and-set gate, the multi-reader/single-writer lock and the ready target.
 // (a) inductive steps from an arbitrary state satisfying the representation invariant;
 // (b) op-level interleavings of 2-3 goroutines commanded by a driver (each primitive's
@@ -352,6 +358,485 @@ func VerifC34ReadyTargetStep() {
 	}
 	for _, s := range r.subscribers {
 		verifAssert("C34-rt-invariant-listed-above-current", s.target > r.currentTarget && !verifIsClosed(s.ch))
+	}
+}
+
+// ---------------------------------------------------------------- interleavings INSIDE the operations
+//
+// The entries above let an operation of a primitive run to completion before the next one
+// starts. The three entries below start 2-3 goroutines at once, each performing its operation(s)
+// on one shared primitive from an arbitrary valid state, and the executor may take the processor
+// away from a running goroutine at every synchronisation operation of the package (spec:
+// max_preempt 1 quick / 2 thorough; which goroutine continues when one blocks or ends is always a
+// choice). Counterexamples are replayed natively with the recorded schedule forced.
+//
+// Oracles (from the statement, none looks at the implementation's fields except to set up the
+// start state and to read the final one):
+//   - "in": goroutines between the return of their acquire and the call of their release. This
+//     under-approximates "holds", so two of them coexisting is a real coexistence of holders.
+//   - "may": goroutines between the call of their acquire and the return of their release. This
+//     over-approximates "holds": a non-blocking acquire may be refused only if a conflicting
+//     party may have held at some moment of the call.
+//   - progress: every holder releases, so when nothing can run any more every goroutine has
+//     finished (a goroutine left parked has lost its wake-up) and the primitive is free again.
+
+// verifC34Busy is a scheduling point inside a critical section (a holder doing some work).
+var verifC34Mu sync.Mutex
+
+func verifC34Work() {
+	verifC34Mu.Lock()
+	verifC34Mu.Unlock()
+}
+
+const verifC34Unit = time.Millisecond
+
+// VerifC34GatePreempt: the check-and-set gate. Start state: free, or held by a party that
+// releases it at some moment, or held throughout. Every other party tries to enter once
+// (Begin, or BeginWithRetry with 2 retries), works inside, and leaves.
+func VerifC34GatePreempt() {
+	verifPanicsAreViolations()
+	c := NewCheckAndSet()
+	nW := 2
+	if verifTier() == 1 {
+		nW = 2 + verifChoice("workers", 2)
+	}
+	names := []string{"A", "B", "C"}
+	in, may, claims := 0, 0, 0
+	held := verifChoice("held", 2) == 1
+	holderEnds := false
+	if held {
+		verifAssume(c.Begin("H") == nil)
+		in, may, claims = 1, 1, 1
+		holderEnds = verifChoice("holderEnds", 2) == 1
+	}
+	done := make([]bool, nW+1)
+	entered := 0
+	for i := 0; i < nW; i++ {
+		i := i
+		retry := verifChoice(verifName("retry", i), 2) == 1
+		go func() {
+			may0, claims0 := may, claims
+			may++
+			claims++
+			var err error
+			t0 := time.Now()
+			if retry {
+				err = c.BeginWithRetry(names[i], 2*verifC34Unit, verifC34Unit)
+			} else {
+				err = c.Begin(names[i])
+			}
+			if err != nil {
+				may--
+				verifReach("gate-refused")
+				verifAssert("C34-gate-refused-only-when-held", may0 > 0 || claims != claims0+1)
+				if retry {
+					verifReach("gate-retry-timeout")
+					verifAssert("C34-gate-retry-error", err == ErrCASConflictTimeout)
+					verifAssert("C34-gate-retry-not-early", time.Since(t0) >= 2*verifC34Unit)
+				} else {
+					verifAssert("C34-gate-error", errors.Is(err, ErrCASConflict))
+				}
+			} else {
+				verifAssert("C34-gate-one-holder", in == 0)
+				in++
+				entered++
+				if held && entered == 1 {
+					verifReach("gate-handover")
+				}
+				verifAssert("C34-gate-owner-is-the-holder", c.Owner() == names[i])
+				verifAssert("C34-gate-one-holder", in == 1)
+				in--
+				c.End()
+				may--
+			}
+			done[i] = true
+		}()
+	}
+	if holderEnds {
+		go func() {
+			verifC34Work()
+			in--
+			c.End()
+			may--
+			done[nW] = true
+		}()
+	} else {
+		done[nW] = true
+	}
+	verifSettle()
+	time.Sleep(5 * verifC34Unit) // a party retrying is asleep between its attempts
+	verifSettle()
+	for i := range done {
+		verifAssert("C34-gate-all-finish", done[i])
+	}
+	if held && !holderEnds {
+		verifAssert("C34-gate-one-holder", entered == 0 && c.Owner() == "H")
+		return
+	}
+	if !held {
+		verifAssert("C34-gate-free-gate-admits-someone", entered >= 1)
+	}
+	verifAssert("C34-gate-free-at-the-end", in == 0 && may == 0 && c.Owner() == "" && c.Begin("Z") == nil)
+}
+
+// verifC34Lock is the bookkeeping shared by the parties of VerifC34MRSWPreempt.
+type verifC34Lock struct {
+	r            *MultiRSW
+	rIn, wIn     int // in the critical section as reader / writer
+	rMay, wMay   int // may hold as reader / writer
+	claims       int // number of times rMay or wMay was raised
+	readsEntered int
+}
+
+func (l *verifC34Lock) enterRead() {
+	verifAssert("C34-no-reader-with-writer", l.wIn == 0)
+	l.rIn++
+	l.readsEntered++
+}
+
+func (l *verifC34Lock) enterWrite() {
+	verifAssert("C34-at-most-one-writer", l.wIn == 0)
+	verifAssert("C34-no-reader-with-writer", l.rIn == 0)
+	l.wIn++
+}
+
+// asWriter: the party is in the critical section as the writer; it works and releases.
+func (l *verifC34Lock) asWriter() {
+	verifC34Work()
+	verifAssert("C34-at-most-one-writer", l.wIn == 1)
+	verifAssert("C34-no-reader-with-writer", l.rIn == 0)
+	l.wIn--
+	l.r.EndWrite()
+	l.wMay--
+}
+
+// asReader: the party is in the critical section as a reader; it works, then either releases
+// or tries to upgrade (and releases whichever hold it ends up with).
+func (l *verifC34Lock) asReader(name string, upgrade bool) {
+	verifC34Work()
+	verifAssert("C34-no-reader-with-writer", l.wIn == 0)
+	if !upgrade {
+		l.rIn--
+		l.r.EndRead()
+		l.rMay--
+		return
+	}
+	w0, r0, c0 := l.wMay, l.rMay-1, l.claims
+	l.wMay++
+	l.claims++
+	err := l.r.UpgradeToWriter(name)
+	if err != nil {
+		l.wMay--
+		verifReach("upgrade-refused")
+		verifAssert("C34-upgrade-refused-only-with-others", w0 > 0 || r0 > 0 || l.claims != c0+1)
+		verifAssert("C34-no-reader-with-writer", l.wIn == 0) // still a reader
+		l.rIn--
+		l.r.EndRead()
+		l.rMay--
+		return
+	}
+	verifReach("upgrade-granted")
+	l.rIn--
+	l.rMay--
+	l.enterWrite()
+	l.asWriter()
+}
+
+// VerifC34MRSWPreempt: the multi-reader/single-writer lock. Start state: free, one or two
+// readers, or a writer (set up through the API); each of these holders is a party that either
+// releases at some moment (a reader may try to upgrade first) or holds throughout. The other
+// parties (up to 2-3 in total) each perform one acquire (try/blocking, read/write), work inside,
+// and release (a reader may try to upgrade first).
+func VerifC34MRSWPreempt() {
+	verifPanicsAreViolations()
+	l := &verifC34Lock{r: NewMultiRSW()}
+	r := l.r
+	names := []string{"A", "B", "C"}
+	nP := 2 + verifChoice("parties", 2)
+	pre := verifChoice("pre", 4) // 0 free, 1 one reader, 2 two readers, 3 a writer
+	preR, preW := 0, 0
+	switch pre {
+	case 1, 2:
+		preR = pre
+	case 3:
+		preW = 1
+	}
+	for i := 0; i < preR; i++ {
+		verifAssume(r.BeginRead() == nil)
+	}
+	if preW == 1 {
+		verifAssume(r.BeginWrite(names[0]) == nil)
+	}
+	l.rIn, l.rMay, l.wIn, l.wMay = preR, preR, preW, preW
+	stays := 0
+	if preR+preW > 0 && nP > preR+preW {
+		stays = verifChoice("stays", 2) // the first holder holds throughout
+	}
+	done := make([]bool, nP)
+	blocking := make([]bool, nP)
+	blockingWrite := make([]bool, nP)
+	for i := 0; i < nP; i++ {
+		i := i
+		name := names[i]
+		switch {
+		case i < stays:
+			done[i] = true
+		case i < preW:
+			go func() {
+				l.asWriter()
+				done[i] = true
+			}()
+		case i < preR:
+			upgrade := verifChoice(verifName("upgrade", i), 2) == 1
+			go func() {
+				l.asReader(name, upgrade)
+				done[i] = true
+			}()
+		default:
+			op := verifChoice(verifName("op", i), 4)
+			upgrade := false
+			if op < 2 {
+				upgrade = verifChoice(verifName("upgrade", i), 2) == 1
+			}
+			blocking[i] = op == 1 || op == 3
+			blockingWrite[i] = op == 3
+			go func() {
+				w0, r0, c0 := l.wMay, l.rMay, l.claims
+				l.claims++
+				switch op {
+				case 0:
+					l.rMay++
+					if err := r.BeginRead(); err != nil {
+						l.rMay--
+						verifReach("read-refused")
+						verifAssert("C34-read-refused-only-under-writer", w0 > 0 || l.claims != c0+1)
+					} else {
+						l.enterRead()
+						l.asReader(name, upgrade)
+					}
+				case 1:
+					l.rMay++
+					r.BeginReadBlocking()
+					l.enterRead()
+					l.asReader(name, upgrade)
+				case 2:
+					l.wMay++
+					if err := r.BeginWrite(name); err != nil {
+						l.wMay--
+						verifReach("write-refused")
+						verifAssert("C34-write-refused-only-when-held", w0 > 0 || r0 > 0 || l.claims != c0+1)
+					} else {
+						l.enterWrite()
+						l.asWriter()
+					}
+				case 3:
+					l.wMay++
+					r.BeginWriteBlocking(name)
+					l.enterWrite()
+					l.asWriter()
+				}
+				done[i] = true
+			}()
+		}
+	}
+	verifSettle()
+	if stays == 1 {
+		// a holder never released: whoever is not finished is a blocking acquirer it excludes
+		for i := range done {
+			if !done[i] {
+				verifReach("parked-behind-holder")
+				verifAssert("C34-parked-only-blocking-acquirers", blocking[i])
+				if preR > 0 {
+					// readers do not exclude readers, and no writer can get in while one stays
+					verifAssert("C34-parked-reader-has-cause", blockingWrite[i])
+				}
+			}
+		}
+		verifAssert("C34-holder-keeps-its-hold", l.rIn+l.wIn >= 1)
+		if preW == 1 {
+			verifAssert("C34-no-reader-with-writer", l.readsEntered == 0 && r.BeginRead() != nil)
+		} else {
+			verifAssert("C34-at-most-one-writer", r.BeginWrite("Z") != nil)
+		}
+		return
+	}
+	for i := range done {
+		verifAssert("C34-blocking-acquirer-proceeds-once-holders-release", done[i])
+	}
+	verifAssert("C34-lock-free-at-the-end", l.rIn == 0 && l.wIn == 0 && l.rMay == 0 && l.wMay == 0)
+	verifAssert("C34-lock-free-at-the-end", r.BeginWrite("Z") == nil)
+}
+
+// VerifC34ReadyTargetPreempt: the ready target. Start state: current index 0 (fresh) or 2
+// (reached through Signal), 0-1 listed waiters above it. 2-3 parties, one operation each:
+// Subscribe(t), Signal(x), Unsubscribe of the listed waiter, Subscribe(t) followed by Unsubscribe
+// of the channel it got (the way a waiter with a timeout uses it), Len, Reset (the last two in
+// the thorough tier). The primitive is generic over an ordered type, so only the order of the
+// indexes matters: they are concrete, taken from 1..4 (below / at / one above / two above the
+// current index 2; all above 0), which keeps the solver out of the schedule exploration - any
+// uint64 values are covered for single operations by VerifC34ReadyTargetStep.
+//   - never before: a channel seen closed was reached by the start index or by a Signal that
+//     had started by then;
+//   - no lost wake-up: once everything has returned (and nobody reset the target), a channel
+//     that was not unsubscribed is closed exactly when its target is at or below the largest
+//     index signalled; the waiters still listed are exactly the open ones.
+func VerifC34ReadyTargetPreempt() {
+	verifPanicsAreViolations()
+	r := NewReadyTarget[uint64]()
+	cur := uint64(2 * verifChoice("cur", 2))
+	r.Signal(cur)
+	verifAssert("C34-rt-signal-monotone", r.currentTarget == cur)
+	nP := 2 + verifChoice("parties", 2)
+	const maxSubs = 4
+	var (
+		targets [maxSubs]uint64
+		chans   [maxSubs]<-chan struct{}
+		unsub   [maxSubs]bool
+		nSubs   int
+		sigs    [3]uint64
+		nSigs   int
+		resets  int
+	)
+	// reached(t): t is at or below the start index or a signal that has started
+	reached := func(t uint64) bool {
+		ok := t <= cur
+		for j := 0; j < nSigs; j++ {
+			ok = verifOr(ok, t <= sigs[j])
+		}
+		return ok
+	}
+	pre := verifChoice("listed", 2)
+	if pre == 1 {
+		t := uint64(3 + verifTier()*verifChoice("t-listed", 2))
+		targets[0], chans[0] = t, r.Subscribe(t)
+		nSubs = 1
+		verifAssert("C34-rt-subscribe-above-current-waits", !verifIsClosed(chans[0]) && r.Len() == 1)
+	}
+	// the parties are interchangeable: their kinds are chosen as a non-decreasing tuple
+	nk := 4 + 2*verifTier()
+	var mixes [][3]int
+	for k0 := 0; k0 < nk; k0++ {
+		for k1 := k0; k1 < nk; k1++ {
+			for k2 := k1; k2 < nk; k2++ {
+				if nP == 2 && k2 != k1 {
+					continue // (k0,k1) once
+				}
+				m := [3]int{k0, k1, k2}
+				n3, nIdle := 0, 0
+				for _, k := range m[:nP] {
+					if k == 3 {
+						n3++
+					}
+					if k == 3 || k == 4 {
+						nIdle++
+					}
+				}
+				if n3 > pre || nIdle == nP {
+					continue // one listed waiter to unsubscribe; something has to happen
+				}
+				mixes = append(mixes, m)
+			}
+		}
+	}
+	mix := mixes[verifChoice("mix", len(mixes))]
+	// quick tier with 3 parties: indexes 2..3 only
+	lo, nv := 1, 4
+	if nP == 3 && verifTier() == 0 {
+		lo, nv = 2, 2
+	}
+	done := make([]bool, nP)
+	for i := 0; i < nP; i++ {
+		i := i
+		kind := mix[i]
+		switch kind {
+		case 0, 2: // Subscribe; Subscribe then Unsubscribe
+			t := uint64(lo + verifChoice(verifName("t", i), nv))
+			k := nSubs
+			nSubs++
+			targets[k] = t
+			go func() {
+				ch := r.Subscribe(t)
+				chans[k] = ch
+				if verifIsClosed(ch) {
+					verifReach("subscribed-closed")
+					verifAssert("C34-rt-never-woken-before-reached", reached(t))
+				}
+				if kind == 2 {
+					unsub[k] = true
+					r.Unsubscribe(ch)
+				}
+				done[i] = true
+			}()
+		case 1: // Signal
+			x := uint64(lo + verifChoice(verifName("x", i), nv))
+			go func() {
+				sigs[nSigs] = x
+				nSigs++
+				r.Signal(x)
+				done[i] = true
+			}()
+		case 3: // Unsubscribe the listed waiter
+			go func() {
+				unsub[0] = true
+				r.Unsubscribe(chans[0])
+				done[i] = true
+			}()
+		case 4: // Len
+			go func() {
+				n := r.Len()
+				verifAssert("C34-rt-len-in-range", n >= 0 && n <= nSubs)
+				done[i] = true
+			}()
+		case 5: // Reset
+			resets++
+			go func() {
+				r.Reset()
+				done[i] = true
+			}()
+		}
+	}
+	verifSettle()
+	for i := range done {
+		verifAssert("C34-rt-all-return", done[i])
+	}
+	open := 0
+	for k := 0; k < nSubs; k++ {
+		closed := verifIsClosed(chans[k])
+		listed := false
+		for _, s := range r.subscribers {
+			if s.ch == chans[k] {
+				verifAssert("C34-rt-listed-once", !listed)
+				listed = true
+			}
+		}
+		if closed {
+			verifReach("woken-concurrently")
+			verifAssert("C34-rt-never-woken-before-reached", reached(targets[k]))
+			verifAssert("C34-rt-woken-waiter-not-listed", !listed)
+		}
+		if unsub[k] {
+			verifAssert("C34-rt-unsubscribed-not-listed", !listed)
+			continue
+		}
+		if resets > 0 {
+			continue
+		}
+		if !closed {
+			verifReach("still-waiting")
+			verifAssert("C34-rt-woken-once-reached", !reached(targets[k]))
+			verifAssert("C34-rt-waiter-stays-listed", listed)
+			open++
+		}
+	}
+	if resets == 0 {
+		verifAssert("C34-rt-list-exact", r.Len() == open)
+		// the current index is the largest index signalled
+		atLeast, isOne := r.currentTarget >= cur, r.currentTarget == cur
+		for j := 0; j < nSigs; j++ {
+			atLeast = verifAnd(atLeast, r.currentTarget >= sigs[j])
+			isOne = verifOr(isOne, r.currentTarget == sigs[j])
+		}
+		verifAssert("C34-rt-signal-monotone", verifAnd(atLeast, isOne))
 	}
 }
 
